@@ -534,7 +534,14 @@ func (d *resolveUndoDecoder) readEntry() (*ResolveUndoEntry, error) {
 		}
 	}
 
-	for s := range e.Stages {
+	// The hashes follow in stage order. Ranging over the map would hand them
+	// out in a random order.
+	for i := range 3 {
+		s := Stage(i + 1)
+		if _, ok := e.Stages[s]; !ok {
+			continue
+		}
+
 		var h plumbing.Hash
 		h.ResetBySize(d.h.Size())
 		if _, err := h.ReadFrom(d.r); err != nil {
